@@ -325,7 +325,7 @@ def edge_cases(now):
     for n in range(0, 3):
         add("chcount", ["cmd " + enc("addRoute consistentHashing k  " + "  ".join("{SINK%d}" % j for j in range(n)))])
         add("chcounttoml", ["toml " + enc("[[route]]\nkey = 'k'\ntype = 'consistentHashing'\ndestinations = [%s]\n" % ", ".join("'{SINK%d}'" % j for j in range(n)))])
-    for old, new, mx in [("foo", "bar", "0"), ("foo", "bar", "-1"), ("foo", "bar", "99999999999999999999"), ("/(/", "x", "-1"), ("/a/", "${9}", "-1"), ("/a/", "x", "1"), ("", "", "1"), ("a", "", "-2")]:
+    for old, new, mx in [("foo", "bar", "0"), ("foo", "bar", "-1"), ("foo", "bar", "99999999999999999999"), ("/(/", "x", "-1"), ("/a/", "${9}", "-1"), ("/a/", "x", "1"), ("", "", "1"), ("a", "", "-2"), ("/", ".", "-1"), ("//", ".", "-1"), ("///", "x", "-1"), ("/", "/", "1"), ("a", "/", "-1")]:
         add("rw", ["cmd " + enc("addRewriter %s %s %s" % (old, new, mx)), "cmd " + enc("addRoute sendAllMatch k  {SINK0}")])
         add("rwtoml", ["toml " + enc("[[rewriter]]\nold = '%s'\nnew = '%s'\nmax = %s\n" % (old, new, mx if not mx.startswith("9999") else "1"))])
     for kind, pat in [("regex", "("), ("regex", "*"), ("prefix", ""), ("sub", ""), ("regex", ""), ("nosuch", "x")]:
@@ -402,7 +402,10 @@ def shrink(ops):
 def search(ctx, name, cases, timeout, shards=8):
     from concurrent.futures import ThreadPoolExecutor
     t0 = time.time()
-    parts = [cases[i::shards] for i in range(shards)]
+    # a process is used for a limited number of cases: the tables of finished cases keep their goroutines (reconnect loops,
+    # tickers) for a while, and thousands of them in one process starve everything else
+    per_proc = 40
+    parts = [cases[i:i + per_proc] for i in range(0, len(cases), per_proc)]
     with ThreadPoolExecutor(max_workers=shards) as ex:
         results = list(ex.map(lambda p: run_cases(p, timeout), parts))
     crashes, outcomes = [], {}
